@@ -169,6 +169,19 @@ def run(tier, seed):
                 kind = "not-a-corner:perturbed"
                 Pc = Pc + 0.05 * (rng.normal(size=len(Pc)) + 1j * rng.normal(size=len(Pc))) * (np.abs(Pc) > 0)
             one(ctx, C, list(Pc), tol, kind, {"style": style, "source_phases": ph})
+    # corners whose coefficients are EXACTLY real, exactly purely imaginary, or exactly real up to a unit factor (+-T_n, +-i T_n,
+    # i times a real corner with the ~1e-16 dust of its imaginary part removed): corners computed from phases never have exactly
+    # zero real or imaginary parts, so a branch taken only for exact zeros is reached by nothing else
+    for n in range(1, 9 if tier == "quick" else 17):
+        cc = np.zeros(n + 1); cc[n] = 1.0
+        tn = np.array(P.mono_from_cheb(cc), dtype=float)
+        phr, _ = P.corner_phases(rng, n, style="real")
+        rc = np.real(np.array(P.corner_poly(phr)))
+        for unit, uname in ((1.0, "+1"), (-1.0, "-1"), (1j, "+i"), (-1j, "-i")):
+            one(ctx, C, list(unit * tn.astype(complex)), 1e-6, "achievable/exact-unit-times-T_n", {"style": "exact:" + uname + "*T_n", "source_phases": None})
+        for unit, uname in ((1j, "+i"), (-1j, "-i"), (1.0, "+1")):
+            # the real corner is achievable only up to its own rounding; the unitarity check decides - a RETURN is judged as usual
+            one(ctx, C, list(unit * rc.astype(complex)), 1e-6, "achievable/exact-unit-times-real-corner", {"style": "exact:" + uname + "*real-corner", "source_phases": phr})
     # two public calls of different kinds on the same numbers: an F-type completion of a real list first, then the P-type
     # request for it - a real polynomial with |P(1)| < 1 is not a corner whatever was asked before
     for L in ([0.2, 0.0, 0.5], [0.0, 0.3, 0.0, 0.4], [0.1, 0.0, -0.3, 0.0, 0.2], [0.0, 0.6], [0.25, 0.0, 0.1, 0.0, 0.05, 0.0, 0.3, 0.0, 0.2]):
